@@ -116,9 +116,12 @@ Proof.
 Qed.
 
 (* a coin of the new state at an output id of a transaction of the batch is that output *)
-Lemma batch_coin_at_output t i c :
+Lemma batch_coin_at_output_data t i c :
   In t txs -> i < 256 -> s_coins s' !! coin_key (t_hash t) i = Some c ->
-  i < N.of_nat (length (t_outputs t)) /\ cd_covhash (c_data c) = cd_covhash (nth (N.to_nat i) (t_outputs t) dflt_cd).
+  i < N.of_nat (length (t_outputs t)) /\
+  cd_covhash (c_data c) = cd_covhash (nth (N.to_nat i) (t_outputs t) dflt_cd) /\
+  cd_value (c_data c) = cd_value (nth (N.to_nat i) (t_outputs t) dflt_cd) /\
+  cd_denom (c_data c) = fix_denom t (cd_denom (nth (N.to_nat i) (t_outputs t) dflt_cd)).
 Proof.
   intros Ht Hi Hc.
   destruct (accepted_batch_coins _ _ _ _ _ Hacc) as (relevant & Hrel & Ec).
@@ -142,10 +145,14 @@ Proof.
     pose proof (relevant_at s txs relevant Hrel (hk_out_nodup SO s txs HK Hs) (hk_out_fresh SO s txs HK) t (i, o) Ht Hjo) as Er.
     unfold key_of in Er. cbn [fst snd] in Er. rewrite N.mod_small in Er by exact Hi.
     rewrite Er in Hr.
-    destruct (cd_covhash o =? 0); [discriminate|]. injection Hr as <-. cbn [coin_of c_data cd_covhash].
+    destruct (cd_covhash o =? 0); [discriminate|]. injection Hr as <-. cbn [coin_of c_data cd_covhash cd_value cd_denom].
     rewrite (enumerate_nth dflt_cd _ _ _ _ Hjo).
-    rewrite N.sub_0_r. reflexivity.
+    rewrite N.sub_0_r. auto.
 Qed.
+Lemma batch_coin_at_output t i c :
+  In t txs -> i < 256 -> s_coins s' !! coin_key (t_hash t) i = Some c ->
+  i < N.of_nat (length (t_outputs t)) /\ cd_covhash (c_data c) = cd_covhash (nth (N.to_nat i) (t_outputs t) dflt_cd).
+Proof. intros Ht Hi Hc. destruct (batch_coin_at_output_data t i c Ht Hi Hc) as (A & B & _). auto. Qed.
 
 (* a coin of the new state at an id that is no output id and no marker of the batch was there before *)
 Lemma batch_coin_elsewhere k c :
